@@ -873,7 +873,7 @@ theorem acct_handle {s : Sys} (self : Cid) (e : Env) (hv : Valid s) (hc : CurOK 
     · split
       · have h1 := acct_upd_same self (fun x => { x with state := .killing, restarting := some poison }) hv (fun _ => rfl)
         exact h1.trans0 (acct_doKill _ _ _ _ h1.ext.valid (hc.ext h1.ext))
-      · exact Acct.refl hv
+      · exact acct_upd_same self _ hv (fun _ => rfl)
   | watch =>
     simp only
     split
